@@ -470,6 +470,15 @@ def rule_none_arguments(ctx):
                      % (text, parameter, target.qualname.replace("cutplace.", ""), reason))
 
 
+def rule_count_expressions_cannot_leave_the_process(ctx):
+    """O10.count: the rule of a DistinctCount check is evaluated with eval(); a name besides the count (exit, quit, an
+    undeclared field behind a short-circuit) must be refused when the CID is loaded - SystemExit is no Exception, so no
+    handler of the package would turn it into an interface error (C09's table)."""
+    from .c09 import rule_distinct_count_names
+
+    rule_distinct_count_names(ctx, "O10.count")
+
+
 def rule_field_rows(ctx):
     """Field rows of a CID: every combination of mark, length shape, example and format is accepted or an InterfaceError."""
     from .c09 import rule_field_row
@@ -479,4 +488,4 @@ def rule_field_rows(ctx):
 
 from .common import rule_module_state, rule_undefined_attributes  # noqa: E402
 
-RULES = [rule_escapes, rule_main_mapping, rule_oserror_stays_oserror, rule_range_constructors, rule_setters, rule_field_rows, rule_delimited_error_helper, rule_definite_assignment, rule_none_arguments, rule_undefined_attributes, rule_module_state]
+RULES = [rule_escapes, rule_main_mapping, rule_oserror_stays_oserror, rule_range_constructors, rule_setters, rule_field_rows, rule_delimited_error_helper, rule_definite_assignment, rule_none_arguments, rule_count_expressions_cannot_leave_the_process, rule_undefined_attributes, rule_module_state]
